@@ -11,8 +11,8 @@ RULE = ("kinds: jtest_linear (quadratic H: exact step matrix M from basis vector
         "control (non-symplectic methods must FAIL the J-test: the monitor can fire); non-trivial = probe executed with a finite defect; "
         "distinct by (kind, method, hamiltonian, layout, route, sign, seed)")
 ASSUMPTIONS = ["finite-difference J-test: delta=1e-5 in longdouble, threshold 1e-8; exact linear J-test threshold 1e4*eps*cond (splitting) / 1e3*solver tolerance (implicit)"]
-FLOORS = {"quick": {"jtest_linear": 24, "jtest_fd": 24, "reverse_probes": 24, "energy_runs": 6, "mask_probes": 27, "controls_fired": 3},
-          "thorough": {"jtest_linear": 240, "jtest_fd": 240, "reverse_probes": 240, "energy_runs": 36, "mask_probes": 180, "controls_fired": 20}}
+FLOORS = {"quick": {"jtest_linear": 24, "jtest_fd": 24, "reverse_probes": 24, "energy_runs": 6, "mask_probes": 27, "controls_fired": 3, "reuse_probes": 20},
+          "thorough": {"jtest_linear": 240, "jtest_fd": 240, "reverse_probes": 240, "energy_runs": 36, "mask_probes": 180, "controls_fired": 20, "reuse_probes": 150}}
 CASE_TIMEOUT = 1200
 SPLIT = ["SymplecticEulerSolver", "ABAs5o6HSolver", "BABs9o7HSolver"]
 LAYOUTS = ["qp", "pq", "interleaved"]
@@ -45,7 +45,14 @@ def gen_cases(tier, seed):
             for route in ROUTES:
                 for r in range(1 if tier == "quick" else 7):
                     cases.append(dict(kind="mask", method=name, ham=str(rng.choice(["pendulum", "coupled_quadratic", "henon_heiles", "quartic_chain"])), layout=lay, route=route,
+                                      mask_type=str(rng.choice(["bool", "bool", "int", "list_int", "list_bool"])),
                                       h=float(rng.choice([-1, 1])) * float(rng.uniform(0.05, 0.4)), pseed=int(rng.integers(1 << 30)), cost=4))
+    # ONE integrator object re-used across probes (step h, step -h back to the same time, next state): the map must not depend on
+    # what the object did before
+    for name in sym:
+        for r in range(1 if tier == "quick" else 6):
+            cases.append(dict(kind="reuse", method=name, ham=str(rng.choice(["pendulum", "duffing", "henon_heiles", "quartic_chain", "coupled_quadratic"])),
+                              h=float(rng.choice([-1, 1])) * float(rng.uniform(0.05, 0.4)), pseed=int(rng.integers(1 << 30)), cost=3 if M[name]["explicit"] else 20))
     for name in (["RK4Solver", "LobattoIIIA4", "EulerSolver", "RadauIIA5"] if tier == "quick" else [n for n, i in M.items() if not i["symplectic"]]):
         for r in range(1 if tier == "quick" else 2):
             cases.append(dict(kind="control", method=name, ham="pendulum", h=float(rng.uniform(0.3, 0.6)), pseed=int(rng.integers(1 << 30)), cost=4 if M[name]["explicit"] else 60))
@@ -158,12 +165,49 @@ def run_case(spec):
             rec.sample["return_error"] = err
             if err > unit:
                 rec.violate("time_reversibility", "step_h_then_minus_h_does_not_return", feats, err=err, unit=unit)
+        elif kind == "reuse":
+            return _reuse(spec, info, ham, rhs, y, h, rec, feats, J, n)
         elif kind == "energy":
             return _energy(spec, info, ham, rhs, y, h, rec, feats, iq, ip)
         elif kind == "mask":
             return _mask(spec, info, ham, rhs, y, h, rec, feats, J, mask, n)
     except AttributeError as e:
         rec.violate("mask_route_broken", "AttributeError", feats, err=repr(e)[:300])
+    return rec.out()
+
+
+def _reuse(spec, info, ham, rhs, y, h, rec, feats, J, n):
+    import desolver as de
+    dt_ = np.dtype("float64")
+    rng = rng_for(1003, spec["pseed"])
+    kw = {} if info["explicit"] else dict(rtol=1e-12, atol=1e-12)
+    shared = info["cls"]((n,), dtype=dt_, **kw)
+    util.passthrough_adaptation(shared)
+    r = de.DiffRHS(rhs)
+    fresh = _stepper(info["cls"], rhs, n, dt_, tol=None if info["explicit"] else 1e-12)
+    t0 = np.asarray(0.3, dtype=dt_)
+    worst = 0.0
+    for i in range(5):
+        yi = (y * (1 + 0.2 * rng.standard_normal(n))).astype(dt_)
+        _, (dT, dY) = shared(r, t0, yi, {}, np.asarray(h, dtype=dt_))
+        y1 = yi + dY
+        ref = fresh(yi, h)
+        unit = 1e3 * 2.3e-16 * (1 + float(np.max(np.abs(ref)))) if info["explicit"] else 1e3 * 1e-12 * (1 + float(np.max(np.abs(ref))))
+        err = float(np.max(np.abs(y1 - ref)))
+        worst = max(worst, err / unit)
+        rec.bump("reuse_probes")
+        if err > unit:
+            rec.violate("history_dependent_step_map", "step_of_a_reused_integrator_differs_from_a_fresh_one", dict(feats, probe=i), err=err, unit=unit)
+            break
+        # step back to the same time with -h: the next probe starts at t0 again from a different state
+        _, (dT2, dY2) = shared(r, np.asarray(t0 + dT, dtype=dt_), y1, {}, np.asarray(-h, dtype=dt_))
+        back = float(np.max(np.abs(y1 + dY2 - yi)))
+        if back > unit * 10:
+            rec.violate("time_reversibility", "step_h_then_minus_h_does_not_return", dict(feats, probe=i, reused=True), err=back, unit=unit * 10)
+            break
+    rec.nontrivial = True
+    rec.worst("reuse_error_over_unit", worst)
+    rec.sample = {"spec": spec, "worst_error_over_unit": worst}
     return rec.out()
 
 
@@ -197,6 +241,21 @@ def _mask(spec, info, ham, rhs, y, h, rec, feats, J, mask, n):
     import desolver as de
     route = spec["route"]
     dt_ = np.dtype(np.longdouble)
+    mt = spec.get("mask_type", "bool")
+    feats = dict(feats, mask_type=mt)
+    bool_mask = mask
+
+    class _M:
+        @staticmethod
+        def copy():
+            if mt == "int":
+                return bool_mask.astype(np.int64)
+            if mt == "list_int":
+                return [int(x) for x in bool_mask]
+            if mt == "list_bool":
+                return [bool(x) for x in bool_mask]
+            return bool_mask.copy()
+    mask = _M
 
     def one_step(y0, hh):
         if route == "constructor":
